@@ -16,16 +16,16 @@ import (
 
 var le = binary.LittleEndian
 
-func u16(v int) []byte { b := make([]byte, 2); le.PutUint16(b, uint16(v)); return b }
+func u16(v int) []byte   { b := make([]byte, 2); le.PutUint16(b, uint16(v)); return b }
 func u32(v int64) []byte { b := make([]byte, 4); le.PutUint32(b, uint32(v)); return b }
 func u64(v int64) []byte { b := make([]byte, 8); le.PutUint64(b, uint64(v)); return b }
 
 // ---------------------------------------------------------------- CAB
 
 type cabFile struct {
-	Name                string
-	Data                []byte
-	Attr, Date, Time    int
+	Name             string
+	Data             []byte
+	Attr, Date, Time int
 }
 type cabFolder struct {
 	Compress int // 0 stored, 1 MSZIP
@@ -51,10 +51,10 @@ type cabSpec struct {
 	FolderOffDelta     int64  // added to every coffCabStart
 	// Authenticode layout: when Sig != nil the reserve area is the 20-byte signature header followed by nothing, and the
 	// signature blob is appended after the cabinet
-	Sig                []byte
+	Sig                 []byte
 	SigU1, SigU2, SigU3 int64
-	SigCabSizeDelta    int64 // added to the CabinetSize field of the signature header
-	SigSizeDelta       int64 // added to the SignatureSize field
+	SigCabSizeDelta     int64 // added to the CabinetSize field of the signature header
+	SigSizeDelta        int64 // added to the SignatureSize field
 }
 
 func mszipBlock(data []byte) []byte {
@@ -248,17 +248,17 @@ type zipEntry struct {
 	Comment string
 }
 type zipSpec struct {
-	Prefix        []byte
-	Entries       []zipEntry
-	Comment       []byte
-	Zip64         bool  // write a zip64 end record + locator and 0xFFFF/0xFFFFFFFF in the end record
-	CDOffDelta    int64 // added to the central directory offset field(s)
+	Prefix         []byte
+	Entries        []zipEntry
+	Comment        []byte
+	Zip64          bool  // write a zip64 end record + locator and 0xFFFF/0xFFFFFFFF in the end record
+	CDOffDelta     int64 // added to the central directory offset field(s)
 	CDSizeOverride int64 // when nonzero, the CDSize field of the end record
-	CountOverride int   // when nonzero, TotalCDCount of the end record
-	LocOffDelta   int64 // added to the zip64 locator's offset
-	NoLocator     bool  // zip64 fields without a locator signature
-	Bad64Sig      bool
-	AfterEOCD     []byte
+	CountOverride  int   // when nonzero, TotalCDCount of the end record
+	LocOffDelta    int64 // added to the zip64 locator's offset
+	NoLocator      bool  // zip64 fields without a locator signature
+	Bad64Sig       bool
+	AfterEOCD      []byte
 }
 
 func writeZip(s *zipSpec) []byte {
